@@ -355,6 +355,11 @@ def errprop(e, env, H: Helpers, lemmas=None, total=False):
         r = cache.get(n.id)
         if r is not None: return r
         op = n.op
+        if lemmas is not None and op not in ('const', 'sym', 'load'):
+            Lm0 = lemmas(n)
+            if isinstance(Lm0, tuple) and Lm0 and Lm0[0] == 'set':
+                # a lemma that states the whole triple (ideal range, error, computed range) of a node, proved by its caller
+                r = (Lm0[1], Lm0[2], Lm0[3]); cache[n.id] = r; return r
         if n.id in env:
             ev_ = env[n.id]
             # an input is either exact (an interval) or itself the result of an earlier stage: (V, E, R)
@@ -394,6 +399,13 @@ def errprop(e, env, H: Helpers, lemmas=None, total=False):
                 r = fin(V, E + rnd(D), D)
         elif op == 'fneg':
             Va, Ea, Ra = rec(n.args[0]); r = (-Va, -Ea, -Ra)
+        elif op == 'frem' and n.args[1].is_const and float(n.args[1].val) > 0:
+            # fmod by a positive constant is exact in floating point; supported for an exact, non-negative argument
+            Va, Ea, Ra = rec(n.args[0]); kq = float(n.args[1].val)
+            if not _zero(Ea) or Va.lo < 0: raise Unsupported('remainder of an inexact or negative argument')
+            qa, qb = math.floor(Va.lo / kq), math.floor(Va.hi / kq)
+            W = I(dn(Va.lo - qa * kq), up(Va.hi - qa * kq)) if qa == qb else I(0.0, kq)
+            r = (W, ZERO, W)
         elif op == 'cast' and X.is_float(n.ty) and X.is_float(n.args[0].ty):
             Va, Ea, Ra = rec(n.args[0])
             r = (Va, Ea, Ra) if n.args[0].ty[1] <= n.ty[1] else fin(Va, Ea + rnd(Ra), rounded(Ra))
@@ -529,7 +541,9 @@ def errprop(e, env, H: Helpers, lemmas=None, total=False):
             raise Unsupported(f"error propagation through {op}")
         if lemmas is not None:
             Lm = lemmas(n)
-            if isinstance(Lm, tuple) and Lm and Lm[0] == 'R':
+            if isinstance(Lm, tuple) and Lm and Lm[0] == 'set':
+                pass
+            elif isinstance(Lm, tuple) and Lm and Lm[0] == 'R':
                 r = (r[0], r[1], meet(r[2], Lm[1]))        # a fact about the computed value only
             elif Lm is not None:
                 r = (meet(r[0], Lm), r[1], meet(r[2], Lm))
